@@ -14,15 +14,30 @@ type unmarshalMachineTransform struct {
 
 	target_rv reflect.Value // given on Reset, retained until last step, and set into after using trFunc
 	recv_rv   reflect.Value // if set, handle to slot where slice is stored; content must be placed into target at end.
+
+	tagged bool // The type's own tag is dropped from the first token (without forcing delegate to know).
+	tag    int
+	first  bool // This resets; 'tagged' persists (because it's type info).
 }
 
 func (mach *unmarshalMachineTransform) Reset(slab *unmarshalSlab, rv reflect.Value, _ reflect.Type) error {
 	mach.target_rv = rv
 	mach.recv_rv = reflect.New(mach.recv_rt).Elem() // REVIEW: this behavior with ptr vs not for in_rt.  the star-star case is prob not what want.
+	mach.first = true
 	return mach.delegate.Reset(slab, mach.recv_rv, mach.recv_rt)
 }
 
 func (mach *unmarshalMachineTransform) Step(driver *Unmarshaller, slab *unmarshalSlab, tok *Token) (done bool, err error) {
+	if mach.first {
+		mach.first = false
+		// The tag on the first token named this type (the marshaller put it
+		// there); it is not a tag of the serial form the delegate reads.
+		if mach.tagged && tok.Tagged && tok.Tag == mach.tag {
+			untagged := *tok
+			untagged.Tagged = false
+			tok = &untagged
+		}
+	}
 	done, err = mach.delegate.Step(driver, slab, tok)
 	if err != nil {
 		return
